@@ -2,7 +2,7 @@ package main
 
 // Parser cache / BodyReader ownership cases (C11, request side).
 //
-//	C body maxbody=<n> rl=<n> hp=<handler program> mv=<0|1>
+//	C body maxbody=<n> rl=<n> hp=<handler program> mv=<0|1> rc=<0|1> rej=<0|1: the executor rejects every handler job (as after close): OnComplete releases the request itself>
 //	D <hex segment>      Parser.Parse(segment)
 //	X                    Parser.CloseAndClean(err)   (what the engine does when the conn closes)
 //
@@ -82,7 +82,11 @@ func execBody(e *lp.Exec, cline string, lines []string, tr *track.Tracker, lg *n
 		}
 	})
 	proc := nbhttp.NewServerProcessor()
-	p := nbhttp.NewParser(rc, engine, proc, false, nil)
+	var executor func(func()) bool
+	if field(f, "rej") == "1" {
+		executor = func(func()) bool { return false }
+	}
+	p := nbhttp.NewParser(rc, engine, proc, false, executor)
 	closed := false
 	dead := false
 	var fed []byte
@@ -210,7 +214,11 @@ func genBody(g *lp.Gen) {
 	if g.Chance(1, 4) {
 		rc = 1
 	}
-	g.P("C body maxbody=%d rl=%d hp=%s mv=%d rc=%d", maxBody, rl, hps, mv, rc)
+	rej := 0
+	if g.Chance(1, 8) {
+		rej = 1
+	}
+	g.P("C body maxbody=%d rl=%d hp=%s mv=%d rc=%d rej=%d", maxBody, rl, hps, mv, rc, rej)
 	var stream []byte
 	nm := 1 + g.Intn(3)
 	for i := 0; i < nm; i++ {
